@@ -467,6 +467,10 @@ pub struct C17 {
     /// result of the same call with limit 0 on the same state: (ok, executed swap legs)
     dry: Option<(bool, Vec<SwapEv>)>,
     quote: Option<u128>,
+    /// OpenPosition only: is this trade one that opens, increases or reduces (limit pinned) rather than one that
+    /// reverses the position? Decided by the monitor from the pre-state - an opposite-side order reduces iff its notional
+    /// is below the position's spot value (vAMM OutputAmount for the whole size) - not from the path the engine took
+    pinned: Option<bool>,
 }
 
 fn zero_limit(op: &Op) -> Option<Op> {
@@ -504,12 +508,19 @@ impl Monitor for C17 {
     }
     fn pre(&mut self, w: &World, op: &Op, pre: &Snap, _r: &mut Report) {
         self.quote = None;
+        self.pinned = None;
         let Some((sender, msg, _)) = engine_msg(op) else { return };
         match msg {
             eng::ExecuteMsg::OpenPosition { vamm, side, margin_amount, leverage, .. } => {
                 if let Some(vi) = w.vamm_idx(vamm) {
                     let n = Big::u(margin_amount.u128()).mul(Big::u(leverage.u128())).div(Big::u(pre.eng.decimals)).to_u128().unwrap_or(0);
-                    self.quote = w.input_amount(vi, *side == eng::Side::Buy, n).ok();
+                    let buy = *side == eng::Side::Buy;
+                    self.quote = w.input_amount(vi, buy, n).ok();
+                    self.pinned = match pre.pos(vi, sender) {
+                        None => Some(true),
+                        Some(p) if p.size == 0 || p.long_dir == buy => Some(true),
+                        Some(p) => w.output_amount(vi, p.long_dir, p.size.unsigned_abs()).ok().map(|value| n < value),
+                    };
                 }
             }
             eng::ExecuteMsg::ClosePosition { vamm, .. } => {
@@ -553,9 +564,10 @@ impl Monitor for C17 {
                 }
                 let Some(q) = self.quote else { return };
                 let Some((dry_ok, dry_legs)) = self.dry.clone() else { return };
-                // the limit is pinned only for trades that open, increase or reduce (single input swap)
-                let single = dry_ok && dry_legs.len() == 1 && dry_legs[0].input;
-                if !single {
+                // the limit is pinned only for trades that open, increase or reduce; which of them this is follows from the
+                // pre-state (see `pinned`), and the trade must be one that goes through with limit 0 on this very state
+                let _ = dry_legs;
+                if self.pinned != Some(true) || !dry_ok {
                     r.count("limit-on-reversal-or-failing-trade(not pinned)");
                     return;
                 }
@@ -569,7 +581,7 @@ impl Monitor for C17 {
                         "C17",
                         "R3-limit-ignored",
                         format!("R3|open|{}|ignored", if buy { "buy" } else { "sell" }),
-                        format!("OpenPosition {} with limit {} executed although the trade exchanges {} base", if buy { "buy" } else { "sell" }, l, q),
+                        format!("OpenPosition {} with limit {} executed although the trade exchanges {} base (path {}, position before: {:?})", if buy { "buy" } else { "sell" }, l, q, path, st.pre.pos(vi, _sender).map(|p| (p.long_dir, p.size, p.notional))),
                         st.seq,
                     );
                 }
